@@ -5,8 +5,10 @@
    md_lookup t a id k is the value of key k for id on axis a (None when id or key is absent);
    mwf / mapping_wf say "a table" (distinct ids, metadata None or one dict per id) and "a Python
    dict of dicts" (distinct ids, distinct keys). conv is the int() / float() oracle. *)
+From Coq Require Import String.
 From Coq Require Import List ZArith Bool.
-From BiomV Require Import Base.Tree Base.Matrix Model.Table Model.Tsv Model.Metadata Proofs.TsvProofs Proofs.MetadataProofs.
+From BiomV Require Import Base.Tree Base.Matrix Model.Table Model.Tsv Model.Metadata Proofs.TsvProofs Proofs.MetadataProofs
+  Gen.MetaPrelude Gen.MetadataGen Proofs.GenBridgeMetadataProofs.
 Import ListNotations.
 Open Scope Z_scope.
 
@@ -136,3 +138,21 @@ Proof. vm_compute. repeat split. Qed.
 Example mapping_parse_hyps :
   mfile_wf true false [] MdExamples.gex /\ mfile_wf true false [MdExamples.n_id; MdExamples.n_ph] MdExamples.gex.
 Proof. split; [exact (mfile_wfb_ok _ _ _ _ MdExamples.gex_wf)|exact (mfile_wfb_ok _ _ _ _ MdExamples.gex_override_wf)]. Qed.
+
+(* ---- translator tie (DESIGN.md 3.1, T8): Gen/MetadataGen.v is regenerated from biom/table.py by
+   tools/py2v_dyn (state mode) at the start of every check; the receiver is an explicit state
+   (raw_state t: the two id lists and the two metadata fields as the code stores them), an axis
+   is the Python string, an exception is RErr code.  mlen_ok t (an axis with metadata has one
+   entry per id: what errcheck guarantees for every Table) is where the source would raise
+   IndexError / stop the zip early while the total hand model goes on. ---- *)
+(* Table.add_metadata: the loop over md.items() with exists / index / update, the None branch
+   building the tuple from the mapping, _cast_metadata on both axes = add_metadata *)
+Theorem add_metadata_is_source_partial : forall t m a, mlen_ok t ->
+  add_metadata_gen (raw_state t) m (axis_text a) = ROk (raw_state (add_metadata t m a)).
+Proof. exact add_metadata_bridge. Qed.
+Print Assumptions add_metadata_is_source_partial.
+Theorem add_metadata_unknown_axis_is_source : forall st m s,
+  text_eqb s (txt "sample") = false -> text_eqb s (txt "observation") = false ->
+  add_metadata_gen st m s = RErr E_UNKNOWN.
+Proof. exact add_metadata_unknown_axis. Qed.
+Print Assumptions add_metadata_unknown_axis_is_source.
